@@ -27,24 +27,25 @@ import (
 )
 
 type HarnessSpec struct {
-	ID         string            `json:"id"`
-	Name       string            `json:"name"`
-	Pkg        string            `json:"pkg"`
-	Params     map[string]int64  `json:"params"`
-	Unwind     int               `json:"unwind"`
-	TimeoutMs  int               `json:"timeout_ms"`
-	BudgetS    int               `json:"budget_s"`
-	MaxPaths   int               `json:"max_paths"`
-	MaxSteps   int               `json:"max_steps"`
-	MaxFork    int               `json:"max_fork"`
-	SymAlloc   int               `json:"max_sym_alloc"`
-	Stubs      map[string]string `json:"stubs"`
-	GoSync     []string          `json:"go_sync"`
-	GoDrop     []string          `json:"go_drop"`
-	MapRotate  []string          `json:"map_rotate"` // functions (regex) whose map ranges start at an arbitrary entry
-	Trace      bool              `json:"trace"`
-	FallbackMs int               `json:"fallback_ms"`
-	FmtCalls   bool              `json:"fmt_calls"`
+	ID            string            `json:"id"`
+	Name          string            `json:"name"`
+	Pkg           string            `json:"pkg"`
+	Params        map[string]int64  `json:"params"`
+	Unwind        int               `json:"unwind"`
+	TimeoutMs     int               `json:"timeout_ms"`
+	BudgetS       int               `json:"budget_s"`
+	MaxPaths      int               `json:"max_paths"`
+	MaxSteps      int               `json:"max_steps"`
+	MaxFork       int               `json:"max_fork"`
+	SymAlloc      int               `json:"max_sym_alloc"`
+	Stubs         map[string]string `json:"stubs"`
+	GoSync        []string          `json:"go_sync"`
+	GoDrop        []string          `json:"go_drop"`
+	MapRotate     []string          `json:"map_rotate"`      // functions (regex) whose map ranges start at an arbitrary entry
+	BlockedSendOK bool              `json:"blocked_send_ok"` // a send on a full channel waits for a live consumer (fine unless a mutex is held)
+	Trace         bool              `json:"trace"`
+	FallbackMs    int               `json:"fallback_ms"`
+	FmtCalls      bool              `json:"fmt_calls"`
 }
 
 type Spec struct {
@@ -70,11 +71,12 @@ type stubRule struct {
 }
 
 type Config struct {
-	rules    []stubRule
-	goSync   []*regexp.Regexp
-	goDrop   []*regexp.Regexp
-	mapRot   []*regexp.Regexp
-	skipInit map[string]bool
+	rules         []stubRule
+	goSync        []*regexp.Regexp
+	goDrop        []*regexp.Regexp
+	mapRot        []*regexp.Regexp
+	blockedSendOK bool
+	skipInit      map[string]bool
 }
 
 // default noise stubs: logging and printing never matter to a property here
@@ -134,6 +136,7 @@ func compileCfg(spec *Spec, h *HarnessSpec) (*Config, error) {
 	for _, p := range append(append([]string{}, spec.GoDrop...), h.GoDrop...) {
 		c.goDrop = append(c.goDrop, regexp.MustCompile(p))
 	}
+	c.blockedSendOK = h.BlockedSendOK
 	for _, p := range h.MapRotate {
 		c.mapRot = append(c.mapRot, regexp.MustCompile(p))
 	}
